@@ -362,6 +362,23 @@ def run(E: Engine, rep: Report, tier: str) -> dict:
     for l in st_c:
         v_ = _unT(l.value[2][2])
         rep.check(v_ != ("name", "trap_coordinates"), "ALIAS", "Traps.__init__|stores-its-own-coordinates", "a converted copy is stored, not the parameter itself", "Traps.__init__ validates a float64 conversion of the coordinates but stores the caller's own object: read lazily, it follows later edits of the caller's array (A = RegisterLayout(c); c += 10; A now reports the moved traps) and keeps the caller's dtype (float32 coordinates are not multiples of 1e-6, so the layout's own coordinates are 'not part of the RegisterLayout')", E.where(ti_f, l.node))
+        # ... as FLOAT64: rounding to COORD_PRECISION happens in the dtype of the stored array, and float32 coordinates
+        #     rounded in float32 are off the 1e-6 grid (0.3 -> 0.30000001192...), so the layout is unequal to its float64
+        #     twin and cannot look its own coordinates up
+        rep.check(_float_conv(l.value[2][2]), "ALIAS", "Traps.__init__|coordinates-stored-as-float64", "the stored array is converted with dtype=float", f"Traps.__init__ stores `{_symT.show(v_)[:100]}` without a float64 conversion: float32 trap coordinates are rounded in float32, which leaves the 1e-6 grid, so equality, hash, coordinate lookup and detuning-map weights differ from the same traps given as float64", E.where(ti_f, l.node))
+    # every rounding of coordinates to the trap grid is numpy's: the builtin round() is correctly rounded on the decimal
+    # value while np.round scales, rounds and rescales -- they disagree on about 5 % of the half-way 7-decimal values
+    # (2.5000005 -> 2.5 with np.round, 2.500001 with round()), so a lookup rounding differently from the layout fails
+    n_br = 0
+    for f in P.all_functions():
+        if not f.module.name.startswith("pulser.register.") or f.module.name.endswith(("_reg_drawer", "_patterns", "_layout_gen")):
+            continue
+        for n in ast.walk(f.node):
+            if isinstance(n, ast.Call) and isinstance(n.func, ast.Name) and n.func.id == "round" and len(n.args) == 2 and norm(n.args[1]) == "COORD_PRECISION":
+                n_br += 1
+                rep.violation("TABLE", f"{f.short}|grid-rounding-is-numpy's", f"`{norm(n)[:80]}` rounds a coordinate to the trap grid with the builtin round(): the layout's own coordinates are rounded with np.round, and the two disagree on half-way values (2.5000005, 3.0000005, 4.3301275), so a coordinate of the layout is 'not part of the RegisterLayout' or resolves to the neighbouring trap", E.where(f, n))
+    if n_br == 0:
+        rep.ok("TABLE", "register package|grid-rounding-is-numpy's", "no builtin round(x, COORD_PRECISION) in the register package", "pulser-core/pulser/register")
     # `itemgetter(*keys)(mapping)` returns a bare item (not a 1-tuple) for a single key: coordinates collected that way
     # are a 1-D array for a one-trap detuning map
     ig_sites = []
